@@ -219,3 +219,38 @@ Fixpoint lookup_param (names values : list bytes) (name : bytes) : bytes :=
   | n :: ns, v :: vs => if bytes_eqb n name then v else lookup_param ns vs name
   | _, _ => []
   end.
+
+(** ** Rejected registrations that the caller recovers from
+
+    [Handle] panics on a rejected route.  A caller that recovers keeps a Mux in which the rejected pattern has left its
+    mark: parseRoute creates the trie nodes of the segments it has read before it meets the empty or repeated [:name].
+    At table level such a GHOST is a candidate that can be narrowed to like any route up to that point and can never be
+    selected: its pattern is the prefix read so far followed by a segment no request can contain ("/").  Unknown methods
+    and duplicates are detected without creating anything and leave no ghost.  (C04 quantifies over tables whose
+    registrations all succeeded, [match_spec]; C05's histories may contain rejected ones, [match_spec_g].) *)
+Fixpoint residue_prefix (seen : list bytes) (pat : list pseg) : list pseg :=
+  match pat with
+  | [] => []
+  | PParam n :: r => if is_nil n || mem_bytes n seen then [] else PParam n :: residue_prefix (n :: seen) r
+  | x :: r => x :: residue_prefix seen r
+  end.
+Definition never_seg : bytes := [47].
+Definition ghost_of (r : route) : option (list pseg) :=
+  if valid_method (snd r) && negb (pattern_ok (pattern (fst r)))
+  then Some (residue_prefix [] (pattern (fst r)) ++ [PLit never_seg])
+  else None.
+Definition ghost_cand (g : list pseg) : cand :=
+  {| c_id := 0%nat; c_rest := g; c_method := []; c_names := [] |}.
+
+Definition match_cands (cs : list cand) (segs : list bytes) (method : bytes) : option smatch :=
+  match segs with
+  | [ [] ] =>
+    match finish_spec cs method [] with
+    | Some m => Some m
+    | None => walk_finish cs segs method
+    end
+  | _ => walk_finish cs segs method
+  end.
+Definition match_spec_g (routes : list route) (ghosts : list (list pseg)) (segs : list bytes) (method : bytes)
+  : option smatch :=
+  match_cands (cands_from 0%nat routes ++ map ghost_cand ghosts) segs method.
